@@ -389,10 +389,14 @@ PROPS = {
                    "Declaration.__contains__ (member iff listed), Declaration.__sub__ (keeps, in order, exactly what neither is nor "
                    "extends an interface of B; operands unchanged) and Declaration.__add__: the literal placement rule of the "
                    "statement is PROVED for every operand pair outside the recorded region and the unrestricted obligation fails "
-                   "(KNOWN-FINDING C20-add-placement-literal). flattened(), _normalizeargs, alsoProvides/noLongerProvides are checked "
-                   "bounded (exhaustive over DAGs <= 3/4 and argument trees of depth 2).",
-        level_note="Declaration(...) constructor and _normalizeargs are assumed contracts; members compared by identity; one known finding.",
-        explanation='algebra operations proved against an executable-independent specification; one recorded deviation from the literal statement; constructor/normalisation bounded',
+                   "(KNOWN-FINDING C20-add-placement-literal). _normalizeargs is verified to append, in order, exactly the leaves of the "
+                   "argument tree (interfaces and class specifications are leaves, tuples and declarations are expanded, recursion through "
+                   "its own contract, any depth) to the given list or a fresh one and to touch no other list; Declaration.__init__ makes exactly "
+                   "those leaves the bases (the specification function the contracts of + and - use for their results). flattened(), "
+                   "alsoProvides/noLongerProvides are checked bounded (exhaustive over DAGs <= 3/4 and argument trees of depth 2).",
+        level_note="Specification.__init__ (bases recorded, C02) assumed; argument trees are finite and made of interfaces, class specifications, tuples and "
+                   "declarations; members compared by identity; one known finding.",
+        explanation='algebra operations, argument normalisation and the constructor proved against an executable-independent specification; one recorded deviation from the literal statement',
     ),
     'C11': dict(
         title='Lookups stay memory-safe and atomic when other code mutates the registry',
